@@ -19,7 +19,6 @@ RULE = ('(a) texts over letters/digits/spaces and the 8 listed line breaks, orac
         '(c) JSON Lines files with blank/corrupt lines and records aligned around the 4096 block edge; '
         'non-trivial = file longer than one block or containing blank/corrupt lines. '
         'distinct = distinct canonical JSON of the case.')
-RULE += ' Round 6: corrupt JSONL lines that are not valid UTF-8 (a record torn inside a multi-byte character, stray bytes) in binary-mode files: skipped with ignore_errors in both directions, ValueError otherwise.'
 ASSUMPTIONS = [
     'lone \\r is not generated for reverse_iter_lines/JSONLIterator (statement: \\n or \\r\\n separated)',
     '\\x1c-\\x1e are not generated for iter_splitlines (not in the statement\'s list of breaks)',
